@@ -27,7 +27,7 @@ TARGETS = {
     "api+thermal": {"reactions": [[["H", "e-"], ["H+", "e-", "e-"]], [["H+", "e-"], ["H"]], [["He", "e-"], ["He+", "e-", "e-"]], [["He+", "e-"], ["He"]],
                                   [["He+", "e-"], ["He++", "e-", "e-"]], [["He++", "e-"], ["He+"]], [["H", "H"], ["H2"]], [["C", "O"], ["CO"]]],
                     "cooling": ["RC_HeIII", "CIC_HI", "CEC_HeII", "CIC_HeI", "RC_HII", "CIC_He_2S", "CEC_HI", "RC_HeI", "CIC_HeII", "RC_HeII", "CEC_HeI"],
-                    "shielding": {"CO": "VB88Table", "H2": "L96Table"}},
+                    "shielding": {"CO": "VB88Table", "H2": "L96Table", "N2": "L13Table"}, "binding": {"#CO": 1150.0, "#H2O": 5700.0}},
 }
 EXPLICIT = {"elements": ["e", "E", "H", "D", "He", "C", "N", "O", "Si"], "pseudo": ["CR", "CRP", "PHOTON", "CRPHOT", "Photon", "g", "o", "p", "m"]}
 OTHERS = [
@@ -79,6 +79,15 @@ def run(res, info):
             res.case(("c17", name, seed), sample={"target": name, "seed": seed, "sha": out[0]["sha"][:16]}, nontrivial=True)
         if ref is None:
             continue
+        # equal descriptions whose dictionaries were filled in another key order
+        for key in ("shielding", "binding"):
+            if len(desc.get(key) or {}) >= 2:
+                d2 = dict(desc, **{key: dict(reversed(list(desc[key].items())))})
+                o2 = work([{"op": "render", "desc": d2, "tag": "reordered"}], 0)[0]
+                if o2.get("sha") != ref:
+                    res.violation("oracle", f"{name}: the same description with the {key} dictionary filled in the opposite key order "
+                                            f"({list(d2[key])} instead of {list(desc[key])}) renders different sources", dict(case, reordered=key))
+                res.count(f"key-order runs ({key})")
         # interference: other networks built, edited and rendered first
         steps = [{"op": "render", "desc": o, "tag": f"other{i}"} for i, o in enumerate(OTHERS)] + [{"op": "render", "desc": desc, "tag": "target"}]
         out = work(steps, 0)
